@@ -647,6 +647,20 @@ func intUpperBound(v ssa.Value) (int64, bool) {
 			}
 			return best, have
 		}
+		if b, ok := x.Call.Value.(*ssa.Builtin); ok && b.Name() == "max" {
+			// max(a, b, …) is bounded when every operand is
+			best := int64(0)
+			for i, a := range x.Call.Args {
+				ub, ok := intUpperBound(a)
+				if !ok {
+					return 0, false
+				}
+				if i == 0 || ub > best {
+					best = ub
+				}
+			}
+			return best, len(x.Call.Args) > 0
+		}
 	case *ssa.BinOp:
 		if x.Op == token.SUB {
 			if ub, ok := intUpperBound(x.X); ok && intNonNegative(x.Y) {
